@@ -29,17 +29,18 @@ CHECKS['C05'] = dict(text='Symbolic execution of function::build / type_definiti
              design='4/C05')
 CHECKS['C08'] = dict(text='Symbolic execution of enum_definition::build for 1..3 (thorough 4) variants, each explicit value symbolic over the whole isize range, '
              'every base type and default-marker placement: accepted paths must have discriminants = explicit value or predecessor+1, size/alignment '
-             'of the base type, default index = marked variant, defaultable consistent; rejected paths must be invalid descriptions; no panics.',
+             'of the base type, default index = marked variant, defaultable consistent, no implicit step past isize::MAX; rejected paths must be invalid descriptions; no panics.',
              note='variants bounded (statement says up to 32); emission (`= v as _`, repr, #[default]) not covered; one open known finding (out-of-range values accepted, required by the repository\'s own test)',
              design='4/C08')
 CHECKS['C12'] = dict(text='The templates are re-run with every numeric unconstrained (64-bit, negatives included); any path ending in a panic or '
              'exhausting the step budget is reported with a solver-produced description that is replayed on the native build.',
-             note='semantic layer only (parser, file I/O outside); field/variant counts bounded; a path whose feasibility the solver cannot decide within its time limit is reported as inconclusive, not as pass',
+             note='semantic layer only (parser, file I/O outside); field/variant counts bounded; two-field layouts fix the two extern alignments per slice to boundary pairs (two unconstrained 64-bit alignments through gcd/lcm do not finish in the solver); a path whose feasibility the solver cannot decide within its time limit is reported as inconclusive, not as pass',
              design='4/C12')
 CHECKS['C04'] = dict(text='Symbolic execution of the vftable construction for 1..2 (thorough 3) virtual functions with symbolic #[index] and table #[size]: '
              'on accepted paths z3 proves every declared function sits in its slot (index, else predecessor+1), all other slots are private thiscall '
              'placeholders, the generated vftable struct lists the same slots with size = slots * pointer width, and the type starts with one private '
-             'vftable pointer; on rejected paths it proves the indices/size were contradictory.',
+             'vftable pointer; on rejected paths it proves the indices/size were contradictory.  A second template gives one virtual function 0..4 parameters of mixed '
+             'type whose names may collide with the identifiers the emitted wrapper binds itself (`this`, `f`): slot, receiver, parameter names and types must be the declared ones.',
              note='slot arithmetic and table layout only; the run-time dispatch clause (wrapper loads the table and calls the slot) needs execution of emitted code and is not decided here; indices < 6, size < 8',
              design='4/C04')
 CHECKS['C16'] = dict(text='Symbolic execution of function::build and the vftable construction with the calling-convention attribute ranging over absent, the '
@@ -51,8 +52,10 @@ CHECKS['C16'] = dict(text='Symbolic execution of function::build and the vftable
 CHECKS['C10'] = dict(text='Symbolic execution of the resolution fix-point over dependency graphs of 2..3 (thorough 4) types in two mutually importing modules '
              '(field types: scalar, by value, pointer, array, #[base], enum, undefined name; targets incl. a non-existent type; rotated definition and '
              'module order): z3 proves accepted <=> all names defined and by-value relation acyclic (closure unrolled), that accepted builds contain '
-             'every declared type and field with its declared type, and that the not-terminating error lists exactly the unresolvable types.',
-             note='graph size bounded (<= 4 types, <= 2 fields each, 2 modules); scalars pointer-width so layout never interferes; undefined names in function signatures / enum bases / extern values are covered by C05, C08 (base 9) and C15',
+             'every declared type and field with its declared type, and that the not-terminating error lists exactly the unresolvable types.  A second template '
+             'puts a name (built-in, local, pointer, undefined, a type of a module that is / is not imported) in each of the seven positions a description can mention one '
+             '(field, enum base, impl parameter / return type, virtual parameter / return type, extern value): accepted <=> every name visible, and each resolves to its definition.',
+             note='graph size bounded (<= 4 types, <= 2 fields each, 2 modules; three types with two fields each only for by-value / pointer fields); names template: <= 2 (thorough 3) of the seven positions deviate from u32 at a time',
              design='4/C10')
 CHECKS['C11'] = dict(text='Symbolic execution of resolve_string / Module::scope for a name declared with distinct sizes in any subset of four modules (one nested), '
              'with every sequence of up to 2 (thorough 3) type imports, module imports and a missing module, and for a built-in name: z3 proves the '
@@ -78,7 +81,8 @@ CHECKS['C06'] = dict(text='Symbolic execution of vftable::build / resolve_region
              design='4/C06', technique=TECH2)
 CHECKS['C07'] = dict(text='Same exploration with impl blocks, visibility and name clashes as the varying dimensions: the associated-function list of every type must equal the '
              'reference (public base functions and non-first-base virtual functions re-exposed under their name or <field>_<name>, forwarding body '
-             'Field{base field, original}, private ones hidden, signature preserved, own functions last).',
+             'Field{base field, original}, private ones hidden, signature preserved, own functions last).  A second template makes the #[base] fields themselves private: the '
+             'forwarders must stay public.',
              note='semantic stage only: forwarding body text, AsRef/AsMut emission and the run-time receiver address (base sub-object offset) are not executed; depth 2, <= 2 bases',
              design='4/C07', technique=TECH2)
 TECHB = TECH + '; Kani/CBMC harnesses on the emitted bindings of solver-chosen witness programs'
@@ -90,20 +94,20 @@ CHECKS['C02'] = dict(text='Symbolic execution of the resolution of an extern typ
 CHECKS['C09'] = dict(text='Product templates build each description twice in one symbolic run; the hash-map model gives the second build every permutation of the user keys of every '
              'iterated map (nondeterministic choice): z3 proves both builds agree (both fail, or both succeed with equal summaries) for dependency graphs and for '
              'signatures/fields/extern values naming generated vftable types; a difference is confirmed natively by disagreeing fresh processes.',
-             note='<= 3 user types; one order per map key-set per path; error texts not compared; file discovery / file bytes outside; one open known finding (signature naming a generated vftable type)', design='4/C09')
+             note='<= 3 user types (+ a user type colliding with a generated name, + an imported module declaring one); graph / vft slices: one order per map key-set per path, all permutations (8 representative ones beyond 4 keys); scope / import slices: one total order per run, all 24 relative orders of the first 4 keys met; error texts not compared; file discovery / file bytes outside; two open known findings (a signature, or a field next to an import declaring the same name, naming a generated vftable type)', design='4/C09')
 CHECKS['C19'] = dict(text='Product template: module m (+ imported n) built without and with an unrelated module u declaring colliding short names (type R, extern S of another '
-             'symbolic size, RVftable, enum K), importing m or not, added first or last; plus a nested module whose enclosing module gains a same-named type: z3 proves '
+             'symbolic size, RVftable, enum K, an impl block for R), importing m or not, added first or last; m importing a type by path while the imported-from module gains an unreferenced type whose name extends the imported one; plus a nested module whose enclosing module gains a same-named type: z3 proves '
              'the summaries of the observed modules are identical whenever both builds are accepted.',
              note='summary level (everything write_module reads), not file bytes; one open known finding (type path equal to a nested module path)', design='4/C19')
 CHECKS['C20'] = dict(text='Product template builds a description and its rewrite (explicit address = implicit offset, unknown<g> gap vs address, #[size] = natural size, '
-             '#[index] = implicit slot, enum value = implicit value, reversed definition order; singly and in all combinations; also with a #[base] field after the gap) '
+             '#[index] = implicit slot, enum value = implicit value, reversed definition order; singly and in all combinations; also with a #[base] field after the gap, in packed types with aligned and misaligned fields, and with the gap written private / pub / documented) '
              'with symbolic sizes/gap/enum value: z3 proves both are accepted or both rejected and the summaries (incl. generated _field_<hex> names as symbolic strings) are identical.',
              note='summary level, not file bytes; numeric spelling (other base) is a parser matter and outside', design='4/C20')
 for _p in ('C01', 'C04', 'C06', 'C07', 'C08', 'C16'):
     CHECKS[_p]['technique'] = TECHB if _p not in ('C06', 'C07') else TECH2 + '; Kani/CBMC harnesses on the emitted bindings of witness programs'
 CHECKS['C04']['note'] = 'indices < 6, table size < 8; run-time dispatch (wrapper loads the table pointer, calls its slot once with this + arguments in order, returns the result) is checked by Kani on the emitted code of sampled witnesses with symbolic arguments, 64-bit host, calling conventions normalised to "C"'
 CHECKS['C06']['note'] = 'depth 2, <= 2 bases per type; the reference model is Python evaluated per leaf; Kani checks on emitted witness programs that vftable() returns the word stored in the base sub-object and that wrappers dispatch through inherited tables'
-CHECKS['C07']['note'] = 'depth 2, <= 2 bases; Kani checks on emitted witness programs that forwarded virtual functions see the base sub-object address as receiver and that AsRef/AsMut return it; forwarding to address-bound functions cannot be executed'
+CHECKS['C07']['note'] = 'depth 2, <= 2 bases; Kani checks on emitted witness programs that forwarded virtual functions see the base sub-object address as receiver and that AsRef/AsMut return it; a probe outside the emitted module names every public item (rustc rejects it if the backend emitted less visibility than resolved); forwarding to address-bound functions cannot be executed'
 CHECKS['C08']['note'] = 'variants bounded (statement says up to 32); Kani checks `Variant as base`, size/align and Default::default() on emitted witness enums; one open known finding (out-of-range values accepted, required by the repository\'s own test)'
 CHECKS['C16']['note'] = 'the extern "<cc>" strings of every vftable slot and address-bound wrapper in the emitted text of sampled witnesses are compared with the resolved conventions'
 CHECKS['C01']['note'] += '; Kani checks offset_of!/size_of/align_of of the emitted struct for sampled width-8 witnesses'
